@@ -18,6 +18,13 @@ fn check_pieces<B: Backend>(cx: &mut Cx, method: &str, hay: &str, pat: &str, src
     let got: Vec<&str> = pieces.iter().map(|p| p.as_str()).collect();
     if got != expected { fail(cx, method, hay, pat, format!("{:?}", got), format!("{:?}", expected)); return; }
     let range = src.as_str().as_bytes().as_ptr_range();
+    // every heap-backed piece holds its own share of the buffer it points into (never a bitwise copy of the source's handle)
+    if let Some(sr) = src.verif_bytes().verif_repr() {
+        let sharing = pieces.iter().filter(|p| p.verif_bytes().verif_repr().map_or(false, |q| q[0] == sr[0])).count();
+        let now = src.verif_bytes().verif_repr().unwrap()[6];
+        if sharing > 0 && now < 1 + sharing { fail(cx, method, hay, pat, format!("{} piece(s) point into the source's buffer but its share count is {}", sharing, now), format!(">= {}", 1 + sharing)); }
+        for p in pieces { if p.len() > 23 && src.verif_bytes().verif_repr().unwrap()[6] < usize::MAX && cx.bk != "unique" && p.verif_bytes().verif_repr().map_or(true, |q| q[0] != sr[0]) { fail(cx, method, hay, pat, format!("a {}-byte piece of a heap value does not share its buffer", p.len()), "same buffer, no copy".into()); } }
+    }
     for p in pieces {
         if p.is_borrowed() != src.is_borrowed() { fail(cx, method, hay, pat, format!("piece {:?} is_borrowed={}", p.as_str(), p.is_borrowed()), format!("is_borrowed={}", src.is_borrowed())); }
         if p.is_borrowed() { let q = p.as_ptr(); if !(range.start <= q && q <= range.end) { fail(cx, method, hay, pat, "borrowed piece outside the source".into(), "inside".into()); } }
